@@ -81,6 +81,13 @@ Definition overlaps (t r : trange) : bool :=
   contains_stamp t (snd vr) || contains_stamp t (fst vr) ||
   contains_stamp vr (fst t) || contains_stamp vr (snd t).
 
+Fixpoint list_beq (A : Type) (f : A -> A -> bool) (a b : list A) : bool :=
+  match a, b with
+  | [], [] => true
+  | x :: r, y :: r' => f x y && list_beq A f r r'
+  | _, _ => false
+  end.
+
 Definition ptr_tr (p : ptr) : trange := (p_s p, p_e p).
 Definition span0 (x : Z) : trange := (x, x).
 
@@ -291,6 +298,9 @@ Definition do_openw (s : st) (w : N) (start : Z) (md : mode) (hint : N) : st * o
   let '(s1, k, size) := acquire s hint in
   (set_ws s1 (assoc_set (s_ws s1) w (mkWr start k size 0 0 size md)), ROk).
 
+(* File.Write through the pooled handle: the handle's write position is the end of the file
+   (files are created empty or opened O_APPEND, and the pool hands a file to one writer at a
+   time) *)
 Definition do_write (s : st) (w : N) (bs : bytes) : st * outcome :=
   match assoc (s_ws s) w with
   | None => (s, RSkip)
@@ -298,7 +308,7 @@ Definition do_write (s : st) (w : N) (bs : bytes) : st * outcome :=
       let n := N.of_nat (length bs) in
       let s1 := match bs with
                 | [] => s
-                | _ => emit s (OWrite false (FData (w_file x)) (w_off x + w_len x)%N bs)
+                | _ => emit s (OWrite false (FData (w_file x)) (flen s (w_file x)) bs)
                 end in
       (set_ws s1 (assoc_set (s_ws s1) w
          (mkWr (w_start x) (w_file x) (w_off x) (w_len x + n) (w_prev x) (w_fsize x + n) (w_mode x))), ROk)
@@ -571,15 +581,17 @@ Definition reload (ps : list ptr) (pos : Z) : option ptr :=
   | None => None
   end.
 
-Definition read_ptr (s : st) (p : ptr) : option bytes :=
-  match dget (s_fs s) (FData (p_file p)) with
+(* the bytes a pointer designates (Reader over a section of <file>.domain) *)
+Definition read_d (d : dirst) (p : ptr) : option bytes :=
+  match dget d (FData (p_file p)) with
   | None => None
-  | Some d =>
+  | Some data =>
       if N.eqb (p_size p) 0 then Some [] else
-      if N.leb (p_off p + p_size p) (N.of_nat (length d))
-      then Some (firstn (N.to_nat (p_size p)) (skipn (N.to_nat (p_off p)) d))
+      if N.leb (p_off p + p_size p) (N.of_nat (length data))
+      then Some (firstn (N.to_nat (p_size p)) (skipn (N.to_nat (p_off p)) data))
       else None
   end.
+Definition read_ptr (s : st) (p : ptr) : option bytes := read_d (s_fs s) p.
 
 Fixpoint list_from (fuel : nat) (s : st) (pos : Z) : list (Z * Z * option bytes) :=
   match fuel with
@@ -602,16 +614,123 @@ Definition seek_found (s : st) (x : Z) : option trange :=
   | None => None
   end.
 
-(* the content of the directory as cesium would serve it after a restart: is the channel
-   there, can it be opened (meta.json present), and every pointer of the decoded index with
-   the bytes it designates *)
+(* ------------------------------------------------------------------ what a restart sees *)
+(* the pointers domain.Open loads: index.domain decoded as it is *)
+Definition disk_ptrs (d : dirst) : list ptr :=
+  match dget d FIndex with Some bs => decode_ptrs bs | None => [] end.
+Definition has_meta (d : dirst) : bool := match dget d FMeta with Some _ => true | None => false end.
+
+(* the content of the directory as cesium serves it after a restart: is the channel there
+   (None: no directory), can it be opened (meta.json present), and every pointer of the
+   decoded index with the bytes it designates *)
 Record view := mkView { v_meta : bool; v_doms : list (ptr * option bytes) }.
 
-Definition view_of (cap : N) (thr : Z) (d : dirst) : option view :=
+Definition view_of (d : dirst) : option view :=
   match d with
   | None => None
-  | Some _ =>
-      let r := recover cap thr d in
-      Some (mkView (match dget d FMeta with Some _ => true | None => false end)
-                   (map (fun p => (p, read_ptr r p)) (s_ptrs r)))
+  | Some _ => Some (mkView (has_meta d) (map (fun p => (p, read_d d p)) (disk_ptrs d)))
   end.
+
+(* ------------------------------------------------------------------ the three windows *)
+(* Recognised on the mutation log of one directory.  wi_trunc: an index Truncate that
+   changed the file length has been issued and its WriteAt has not completed;
+   wi_gc: GC renamed a data file away and the index has not been rewritten since;
+   wi_torn: the image ends in a torn index WriteAt; dir/meta: the directory exists / has
+   its meta.json. *)
+Record win := mkWin { wi_dir : bool; wi_meta : bool; wi_idxlen : N; wi_trunc : bool; wi_gc : bool; wi_torn : bool }.
+Definition win0 : win := mkWin false false 0 false false false.
+
+Definition win_step (w : win) (o : fsop) : win :=
+  match o with
+  | OMkdir => mkWin true false 0 false false false
+  | ORenameDir => win0
+  | ORename FMetaTmp FMeta => mkWin (wi_dir w) true (wi_idxlen w) (wi_trunc w) (wi_gc w) false
+  | OTrunc FIndex n => mkWin (wi_dir w) (wi_meta w) n (wi_trunc w || negb (N.eqb n (wi_idxlen w))) (wi_gc w) false
+  | OWrite _ FIndex off bs =>
+      mkWin (wi_dir w) (wi_meta w) (N.max (wi_idxlen w) (off + N.of_nat (length bs))) false false false
+  | ORename (FData _) (FTmp _) => mkWin (wi_dir w) (wi_meta w) (wi_idxlen w) (wi_trunc w) true false
+  | _ => w
+  end.
+
+Definition win_torn (w : win) (o : fsop) : win :=
+  match o with
+  | OWrite _ FIndex _ _ => mkWin (wi_dir w) (wi_meta w) (wi_idxlen w) (wi_trunc w) (wi_gc w) true
+  | _ => w
+  end.
+
+(* classes: 1 = channel directory without meta.json, 2 = between a length-changing index
+   Truncate and its WriteAt, 3 = torn index WriteAt, 4 = between GC's file swap and the
+   index rewrite, 0 = outside every window *)
+Definition win_class (w : win) : nat :=
+  if wi_dir w && negb (wi_meta w) then 1%nat
+  else if wi_torn w then 3%nat
+  else if wi_trunc w then 2%nat
+  else if wi_gc w then 4%nat
+  else 0%nat.
+
+Definition win_after (l : list fsop) : win := fold_left win_step l win0.
+
+(* window state of the crash image (k, t) of a log *)
+Definition win_image (log : list fsop) (k t : nat) : win :=
+  let w := win_after (firstn k log) in
+  match t, nth_error log k with
+  | S _, Some o => win_torn w o
+  | _, _ => w
+  end.
+
+(* ------------------------------------------------------------------ side conditions *)
+(* Decidable conditions on a history under which the theorems are stated; each is
+   evaluated on every generated case by the correspondence check. *)
+Definition in_i64 (z : Z) : bool := (- two63 <=? z) && (z <? two63).
+Definition wf_ptr (p : ptr) : bool :=
+  in_i64 (p_s p) && in_i64 (p_e p) && N.ltb (p_file p) 65536 && N.ltb (p_off p) two32 && N.ltb (p_size p) two32.
+
+Definition inrb (d : dirst) (p : ptr) : bool :=
+  match dget d (FData (p_file p)) with
+  | Some data => N.leb (p_off p + p_size p) (N.of_nat (length data))
+  | None => false
+  end.
+
+Fixpoint distinct (l : list N) : bool :=
+  match l with [] => true | x :: r => negb (nmem x r) && distinct r end.
+
+(* the position a delete persists from, when it changes the index (mirrors do_delete) *)
+Definition delete_start (s : st) (a : Z) : nat :=
+  let '(i, exact) := usearch (s_ptrs s) (span0 a) in
+  Z.to_nat (if exact then i else i + 1).
+
+Definition legal_step (s : st) (o : dop) (s' : st) (oc : outcome) : bool :=
+  (* operations come in a sensible order: a directory is created once, used while it exists *)
+  match o, s_fs s with
+  | DCreate _, None => match s_ws s with [] => true | _ => false end
+  | DCreate _, Some _ => false
+  | _, None => false
+  | _, Some fs => match fget fs FIndex with Some _ => true | None => false end
+  end &&
+  (* every pointer is representable in the 26-byte record *)
+  forallb wf_ptr (s_ptrs s') &&
+  (* the file a writer holds exists *)
+  forallb (fun iw => fexists s' (FData (w_file (snd iw)))) (s_ws s') &&
+  match o with
+  | DGC =>
+      (* GC completed and its result is well formed (C04's subject): pointers inside the
+         rewritten files, writers' tracked positions inside theirs *)
+      outcome_eqb oc ROk && forallb (inrb (s_fs s')) (s_ptrs s') &&
+      forallb (fun iw => N.leb (w_off (snd iw) + w_len (snd iw)) (flen s' (w_file (snd iw)))) (s_ws s')
+  | DDelete a _ _ =>
+      (* everything before the position the delete persists from is already on disk
+         (cesium's control gate keeps deletes off the range of an open writer) *)
+      let n := delete_start s a in
+      list_beq ptr ptr_eqb (firstn n (disk_ptrs (s_fs s))) (firstn n (s_ptrs s))
+  | DOpenW w _ _ _ => match assoc (s_ws s) w with None => true | Some _ => false end
+  | DReopen => match s_ws s with [] => true | _ => false end
+  | _ => true
+  end.
+
+Fixpoint legal_run (s : st) (h : list dop) : bool :=
+  match h with
+  | [] => true
+  | o :: r => let '(s', _, oc) := step s o in legal_step s o s' oc && legal_run s' r
+  end.
+
+Definition legal (cap : N) (thr : Z) (h : list dop) : bool := legal_run (init cap thr) h.
